@@ -849,6 +849,15 @@ func (c *Ctx) c15Labelling() {
 	recordFormAny := false
 	for _, p := range paths {
 		for _, ev := range p.Events {
+			if ev.Kind == pw.EvMapInsert && ev.Recv != nil && ev.Recv.Kind == pw.KAlloc {
+				if rec := pointee(ev.Value); rec != nil && rec.Kind == pw.KAlloc && rec.Fields != nil {
+					for _, fv := range rec.Fields {
+						if fv != nil && fv.Kind == pw.KMapVal && fv.Ev != nil && fv.Ev.Recv != nil && fv.Ev.Recv.Field != nil && fname(fv.Ev.Recv.Field) == "deleters" {
+							recordFormAny = true
+						}
+					}
+				}
+			}
 			if ev.Kind == pw.EvAssign && ev.Value != nil && ev.Value.Kind == pw.KAppend {
 				for _, el := range ev.Value.Elems {
 					if el != nil && el.Kind == pw.KAlloc && el.Fields != nil {
@@ -899,6 +908,21 @@ func (c *Ctx) c15Labelling() {
 					}
 					if ev.Kind != pw.EvMapInsert || ev.Recv == nil || ev.Recv.Kind != pw.KAlloc || ev.Key == nil || ev.Key.Kind != pw.KRangeKey {
 						continue
+					}
+					// record form kept in a map: one struct per name, filed under the name
+					if rec := pointee(ev.Value); rec != nil && rec.Kind == pw.KAlloc && rec.Fields != nil {
+						hasI, hasD := false, false
+						for _, fv := range rec.Fields {
+							if fv != nil && fv.Kind == pw.KRangeVal {
+								hasI = true
+							}
+							if isDeletersOf(fv, ev.Key) {
+								hasD = true
+							}
+						}
+						if hasI && hasD {
+							okI, okD, recordForm = true, true, true
+						}
 					}
 					if ev.Value != nil && ev.Value.Kind == pw.KRangeVal {
 						okI, snapIdx = true, ev.Recv
